@@ -852,13 +852,13 @@ class C19(Prop):
                 x = c()
                 x["mesh"]["levels"] = "en"
                 yield x
+            rank = {"one": 0, "zero": 1, "offset": 2}     # only towards simpler id maps: the shrink terminates
             for key in ("eid", "nid"):
-                if m[key]["kind"] != "one":
-                    for k2 in ("one", "zero", "offset"):
-                        if k2 != m[key]["kind"]:
-                            x = c()
-                            x["mesh"][key] = {"kind": k2, "seed": 0}
-                            yield x
+                for k2 in ("one", "zero", "offset"):
+                    if rank[k2] < rank.get(m[key]["kind"], 3):
+                        x = c()
+                        x["mesh"][key] = {"kind": k2, "seed": 0}
+                        yield x
         f = case.get("field")
         if f and f["t"] == "lin":
             if f["c"] != 0.0:
